@@ -12,6 +12,10 @@ Translate(x, va, priv, iswrite, size, wasaligned) ==
   THEN LET t == TranslateP(x, va, priv, iswrite, wasaligned) IN [x |-> t.x, pa |-> t.pa, ext |-> 0]
   ELSE TranslateV(x, va, priv, iswrite, size, wasaligned)
 
+\* attributes / NS of the descriptor translate_address returns (Translate trace action); PMSA: NS is IMPLEMENTATION DEFINED
+TranslateAttrs(x, va, priv, iswrite, wasaligned) ==
+  IF x.s.cfg.pmsa THEN [at |-> TranslateP(x, va, priv, iswrite, wasaligned).at, ns |-> 2] ELSE AttrsV(x.s, va)
+
 IsAligned(a, size) == IsZeroW(WAnd(a, <<0, size - 1>>))
 AlignW(a, size)    == WAnd(a, <<MM, M - size>>)
 
